@@ -1,5 +1,6 @@
 """State/response oracles for the history-based properties.  Pure functions of
 (dump before, request, response, dump after): rows only, no placement code."""
+import uuid as uuidlib
 from fractions import Fraction
 
 from pv import dbdump
@@ -334,11 +335,44 @@ def c09(step, res):
         res.violation('C09|%s|%s' % (kind, rn),
                       'after %s (%d): %s %s' % (rn, step.resp.status, kind,
                                                 detail), step.witness())
+    # the parent links are those the accepted requests asked for: a request
+    # changes the link of the provider it names, to the parent it names, and
+    # no other link
+    body = step.req['body'] if isinstance(step.req['body'], dict) else {}
+    v = vnum(step.req['version'])
+    want = {u: p['parent'] for u, p in before.providers.items()}
+    if step.ok and step.route in ('rp', 'rps') and \
+            step.req['method'] in ('POST', 'PUT', 'DELETE'):
+        def canon(x):
+            try:
+                return str(uuidlib.UUID(x)) if isinstance(x, str) else x
+            except ValueError:
+                return x
+        if step.req['method'] == 'PUT' and step.route == 'rp':
+            u = canon(step.params['uuid'])
+            if u in want and v >= 14 and 'parent_provider_uuid' in body:
+                want[u] = canon(body['parent_provider_uuid'])
+        elif step.req['method'] == 'DELETE' and step.route == 'rp':
+            want.pop(canon(step.params['uuid']), None)
+        elif step.req['method'] == 'POST':
+            for u in set(after.providers) - set(before.providers):
+                want[u] = canon(body.get('parent_provider_uuid')) \
+                    if v >= 14 else None
+    res.count('parent_links_compared', len(want))
+    got = {u: p['parent'] for u, p in after.providers.items()}
+    if got != want:
+        bad = sorted(u for u in set(got) | set(want)
+                     if got.get(u, 0) != want.get(u, 0))
+        res.violation(
+            'C09|parent-link-not-as-requested|%s' % rn,
+            'after %s (%d) the parent links of %s are %r; the accepted '
+            'requests ask for %r' % (rn, step.resp.status, bad[:4],
+                                     [got.get(u, 'absent') for u in bad[:4]],
+                                     [want.get(u, 'absent') for u in bad[:4]]),
+            step.witness())
     if step.route not in ('rp', 'rps') or step.req['method'] in READ_METHODS:
         return
     st = step.resp.status
-    body = step.req['body'] if isinstance(step.req['body'], dict) else {}
-    v = vnum(step.req['version'])
     must_refuse = None
     if step.req['method'] == 'POST' and step.route == 'rps' and v >= 14:
         par = body.get('parent_provider_uuid')
